@@ -960,7 +960,9 @@ func (n *AlertNode) event(
 ) (alert.Event, error) {
 	msg, details, err := n.renderMessageAndDetails(id, name, t, group, tags, fields, level, d)
 	if err != nil {
-		return alert.Event{}, err
+		// The message or details template cannot be rendered for this data.
+		// That is an error for this event only: it is sent without the text that failed.
+		n.diag.Error("failed to render alert message or details", err)
 	}
 	event := alert.Event{
 		Topic: n.anonTopic,
@@ -1414,7 +1416,7 @@ func (n *AlertNode) renderMessageAndDetails(id, name string, t time.Time, group 
 	tmpBuffer.Reset()
 	err = n.detailsTmpl.Execute(tmpBuffer, dinfo)
 	if err != nil {
-		return "", "", err
+		return msg, "", err
 	}
 
 	details := tmpBuffer.String()
